@@ -395,7 +395,8 @@ func TestC06Image(t *testing.T) {
 
 type C06Conc struct {
 	Native  bool `json:"native"`
-	Commits int  `json:"commits"` // commits performed while the dump transaction is open (native) / attempted (shadow)
+	NewDBI  bool `json:"new_dbi,omitempty"` // shadow mode: the application creates a DBI while SendOnce waits for the write lock
+	Commits int  `json:"commits"`           // commits performed while the dump transaction is open (native) / attempted (shadow)
 	Rounds  int  `json:"rounds"`
 }
 
@@ -465,7 +466,61 @@ func checkC06Conc(c C06Conc, o *vcore.Obs) error {
 	}
 	defer func() { stop.Store(true); wg.Wait() }()
 	for r := 0; r < c.Rounds; r++ {
-		if _, err := s.SendOnce(context.Background(), env.Env); err != nil {
+		if c.NewDBI && !c.Native {
+			// The application holds the write lock, SendOnce starts and has to wait for it; the application then
+			// creates a new DBI in a multi-DBI transaction and commits. The snapshot is taken after that
+			// transaction and must be its complete image, new DBI included.
+			started, release, done := make(chan struct{}), make(chan struct{}), make(chan error, 1)
+			fresh := fmt.Sprintf("fresh%d", r)
+			go func() {
+				done <- env.Update(func(txn *lmdb.Txn) error {
+					close(started)
+					<-release
+					id := make([]byte, 8)
+					binary.BigEndian.PutUint64(id, uint64(txn.ID()))
+					for _, n := range []string{"left", "right", fresh} {
+						dbi, err := txn.OpenDBI(n, lmdb.Create)
+						if err != nil {
+							return err
+						}
+						if err := txn.Put(dbi, []byte("id"), id, 0); err != nil {
+							return err
+						}
+					}
+					return nil
+				})
+			}()
+			<-started
+			sendDone := make(chan error, 1)
+			go func() { _, err := s.SendOnce(context.Background(), env.Env); sendDone <- err }()
+			time.Sleep(30 * time.Millisecond) // SendOnce is now blocked on the write lock
+			close(release)
+			if err := <-done; err != nil {
+				return fmt.Errorf("harness: application transaction: %v", err)
+			}
+			if err := <-sendDone; err != nil {
+				return fmt.Errorf("SendOnce: %v", err)
+			}
+			names := b.Names()
+			data, _ := b.Get(names[len(names)-1])
+			flat, err := DecodeBlob(data)
+			if err != nil {
+				return err
+			}
+			found := false
+			for _, d := range flat.DBIs {
+				if d.Name == fresh {
+					found = len(d.Entries) == 1
+				}
+			}
+			if !found {
+				var have []string
+				for _, d := range flat.DBIs {
+					have = append(have, d.Name)
+				}
+				return fmt.Errorf("snapshot taken after the application's multi-DBI transaction lacks the DBI %q created in it (has %v): not the image of one transaction", fresh, have)
+			}
+		} else if _, err := s.SendOnce(context.Background(), env.Env); err != nil {
 			return fmt.Errorf("SendOnce: %v", err)
 		}
 		names := b.Names()
@@ -477,7 +532,7 @@ func checkC06Conc(c C06Conc, o *vcore.Obs) error {
 		ids := map[string]uint64{}
 		for _, d := range flat.DBIs {
 			for _, e := range d.Entries {
-				if string(e.Key) == "id" && len(e.Value) == 8 {
+				if string(e.Key) == "id" && len(e.Value) == 8 && (d.Name == "left" || d.Name == "right") {
 					ids[d.Name] = binary.BigEndian.Uint64(e.Value)
 				}
 			}
@@ -503,6 +558,7 @@ func checkC06Conc(c C06Conc, o *vcore.Obs) error {
 	o.NonTrivial(c.Commits > 0 || !c.Native)
 	o.ClassIf(c.Native, "native-commits-inside-dump-transaction")
 	o.ClassIf(!c.Native, "shadow-free-running-writer")
+	o.ClassIf(c.NewDBI && !c.Native, "dbi-created-while-upload-waits-for-the-lock")
 	return nil
 }
 
@@ -510,7 +566,7 @@ func TestC06Concurrent(t *testing.T) {
 	vcore.Run(t, vcore.Config{Property: "C06",
 		Rule: "a writer commits transactions that put their own transaction id under the same key into two DBIs; native: commits are performed from Hooks.BeforeRead, i.e. while the dump's read transaction is open (plus a free-running writer in the thorough tier); shadow: free-running writer; the snapshot shows the same id in both DBIs, equal to the transaction id recorded in its metadata (native); non-trivial = >=1 commit inside the dump transaction / free-running writer"},
 		func(t *rapid.T) C06Conc {
-			return C06Conc{Native: rapid.Bool().Draw(t, "native"), Commits: rapid.IntRange(0, 4).Draw(t, "commits"), Rounds: rapid.IntRange(1, 3).Draw(t, "rounds")}
+			return C06Conc{Native: rapid.Bool().Draw(t, "native"), NewDBI: rapid.IntRange(0, 2).Draw(t, "newdbi") == 0, Commits: rapid.IntRange(0, 4).Draw(t, "commits"), Rounds: rapid.IntRange(1, 3).Draw(t, "rounds")}
 		}, checkC06Conc)
 }
 
